@@ -425,6 +425,11 @@ func distributeNEOToAlphabetContracts(ctx context.Context, prm distributeNEOToAl
 			return fmt.Errorf("NEO balance exceeds uint64: %v", bal)
 		}
 
+		if txMonitor.isPending() {
+			prm.logger.Info("previously sent Notary request transferring Neo from committee multi-sig account to the Alphabet contracts is still pending, will wait for the outcome")
+			continue
+		}
+
 		prm.logger.Info("have available NEO on the committee multi-sig account, going to transfer to the Alphabet contracts",
 			zap.Stringer("balance", bal))
 
